@@ -173,6 +173,7 @@ def handle (toks : List String) : String :=
     | .error .skip => "SKIP"
     | .error .bad => "bad-op"
     | .ok fs =>
+      if !(supportsAll (fs.map (·.1))) then "ERR:not-impl" else
       match (if rows = "-" then .ok [] else pRows rows.toList []) with
       | .error .skip => "SKIP"
       | .error .bad => "bad-op"
